@@ -25,6 +25,15 @@ theorem numbering_checked : check numbering prog (infer numbering prog) = true :
 theorem calm_checked : check calm prog (infer calm prog) = true := by decide +kernel
 theorem calm_forward : forward calm prog (infer calm prog) = true := by decide +kernel
 
+/-- `bin/newpolicy` and `bin/sudo-newpolicy` (what users and cron call) only read the database and
+delegate to newpolicy.sh: shgen accepts nothing but the listed read-only command kinds, and exactly
+one command starts / execs the worker. -/
+theorem wrappers_only_delegate :
+    (wrapper.all fun x => x.2 ∈ ["conf", "assign", "echo", "test", "cat", "wait", "flockShared", "startWorker"]) = true ∧
+    (wrapper.filter fun x => x.2 == "startWorker").length = 1 ∧
+    (sudoWrapper.all fun x => x.2 ∈ ["conf", "assign", "test", "execWorker"]) = true ∧
+    (sudoWrapper.filter fun x => x.2 == "execWorker").length = 1 := by decide
+
 /-! ### Invariants over all histories, kill points and interleavings -/
 
 /-- `current` is absent or names an existing directory that holds a successful compile. -/
@@ -179,7 +188,8 @@ example :
     (run prog false es).g.edited = false ∧ (run prog false es).g.hist = [2, 1] := by decide +kernel
 
 def obligations : List Lean.Name := [
-  ``safety_checked, ``numbering_checked, ``calm_checked, ``calm_forward, ``next_run_promotes_newest_partial,
+  ``safety_checked, ``numbering_checked, ``calm_checked, ``calm_forward, ``wrappers_only_delegate,
+  ``next_run_promotes_newest_partial,
   ``current_absent_or_compiled, ``compile_ok_iff_good, ``bad_commit_never_changes_current, ``at_most_one_worker,
   ``policy_numbers_strictly_increase_partial, ``policy_numbers_strictly_increase_counterexample,
   ``next_run_promotes_newest_counterexample, ``next_run_promotes_newest_counterexample_compile]
